@@ -206,6 +206,10 @@ def generate(ctx, module, cfg, out_path, workers=4, timeout=600, simulate=None, 
     extra = []
     if seed is not None:
         extra = ["-seed", str(seed)]
+    if simulate:
+        m = re.search(r"GenDepth\s*=\s*(\d+)", open(os.path.join(SPECS, cfg)).read())
+        if m:
+            extra += ["-depth", str(int(m.group(1)) + 1)]
     r = tlc(ctx, module, cfg, workers=workers, timeout=timeout, simulate=simulate, tag=tag, extra=extra)
     beh = r.lines(tagname)
     if r.inv_violated or (r.error and not simulate):
